@@ -44,6 +44,7 @@ def run(ctx):
     ctx.assumptions += ['TLC/SANY', 'JSON marshalling', 'quality of the operating system random source',
                         '"not derived from the message" is decided as non-repetition under identical inputs, size and placement']
     warnings.simplefilter('ignore')
+    ctx.model('MC_Encrypt')
     W = c03.World(ctx)
     reps = 12 if ctx.quick else 60
     ev = []
